@@ -37,10 +37,12 @@ def vary_rare_parameters(rng, cfg, p=0.15):
     constants, and (when the run does not already set them) a user step cap. They define another valid run, nothing more."""
     if rng.random() < p:
         cfg["ftol_linesearch"] = float(pick_(rng, [1e-4, 1e-2, 0.1, 0.3]))
-        cfg["gtol_linesearch"] = float(pick_(rng, [0.1, 0.5, 0.99]))
-        if cfg["gtol_linesearch"] <= cfg["ftol_linesearch"]:
+        # (the documentation asks for nonnegative tolerances; values of 1 and more make the curvature condition void, 0 makes it
+        #  unattainable / switches the interval test off - legal settings all)
+        cfg["gtol_linesearch"] = float(pick_(rng, [0.1, 0.5, 0.99, 1.0, 2.5, 0.0]))
+        if 0 < cfg["gtol_linesearch"] <= cfg["ftol_linesearch"]:
             cfg["gtol_linesearch"] = 0.9
-        cfg["xtol_linesearch"] = float(pick_(rng, [1e-8, 1e-3, 0.1, 0.5]))
+        cfg["xtol_linesearch"] = float(pick_(rng, [1e-8, 1e-3, 0.1, 0.5, 0.0]))
         cfg["_rare"] = True
     return cfg
 
